@@ -83,6 +83,25 @@ CLAIMED = {
              "as a known-finding class, not excused silently.",
         technique="Coq proof (id_handler case lemmas, counter arithmetic, key-uniqueness invariant by induction over imports) + differential correspondence",
         design="4 (C04)"),
+    "C05": dict(
+        text="Coq theorems (Properties/C05.v, 11 statements, closed under the global context) about the model of the "
+             "IntegrityError dispatch and _do_merge, for an arbitrary database state, newcomer, id_spec and force_merge_fields: "
+             "'error' aborts; 'warning' leaves features, relations and duplicates untouched; 'replace' puts the newcomer at the "
+             "old row's position, keeps every other row, drops the old level-1 parent links and files the new ones; "
+             "'create_unique' appends under a fresh <key>_n (= <key>_(counter+1) when that number is free) leaving all rows "
+             "intact; 'merge' either appends under a fresh key recorded in duplicates, or updates exactly one candidate in "
+             "place whose attribute values per key are exactly the duplicate-free union of the newcomer's and the candidates' "
+             "values, with exempt columns the comma-joined sorted set; the newcomer's Parent links always go to the key it was "
+             "stored under. Tied to create.py by exhaustive arrival sequences of length <= 3 (thorough: 4) over a 6-feature "
+             "alphabet x 5 strategies plus 1.5k random sequences x force_merge_fields subsets, comparing features (values as "
+             "sets for merge), relations, duplicates and counters inside Coq.",
+        note="Trusted: Coq kernel + vm_compute; Model/Import.v hand-written, tied by the correspondence. Python's list(set(v)) "
+             "order is unspecified: the model keeps merged values sorted and the comparison is on sets. The invariant 'at most "
+             "one merge candidate agrees on the compared columns' is not yet a theorem: with several agreeing candidates the "
+             "model follows the code (last one is updated) and the correspondence decides. GTF importer dispatch is the same "
+             "code shape and is exercised by C03's correspondence. update() reuses the importer (C10).",
+        technique="Coq proof (per-strategy state-transition theorems, attribute-union theorem) + exhaustive small-scope differential correspondence",
+        design="4 (C05)"),
 }
 
 PENDING_REASON = "machinery for this property is not built yet in this revision (planned, see DESIGN.md section 4/9); not claimed until its check exists"
